@@ -121,11 +121,17 @@ def run(ctx, inputs=None, label="concurrent run"):
             jobs = ([dict(mkjob(rng, KINDS[i % len(KINDS)]), first=1 if i < len(KINDS) and i % 4 == 0 else 0) for i in range(39 if ctx.quick else 78)] + addons + [mkjob(rng, "dm") for _ in range(6)]
                     + charset_jobs(rng, 12 if ctx.quick else 30) + damaged_jobs(rng, 16 if ctx.quick else 36))
             inputs.append(dict(op="round", k=k, rounds=4 if ctx.quick else 12, procs=procs, seed=rng.randrange(1 << 30), jobs=jobs, share=0))
+            last = jobs
+        # a first use happens once per process: several more fresh processes that do nothing but run the `first` jobs on all goroutines at once
+        # (a race on lazily built state needs the goroutines to overlap in a window of microseconds - more throws, more hits)
+        firsts = [j for j in last if j.get("first")]
+        for (k, procs) in ([(8, 8), (4, 16), (16, 4), (8, 2)] if ctx.quick else [(8, 8), (4, 16), (16, 4), (8, 2), (32, 16), (6, 3)] * 3):
+            inputs.append(dict(op="round", k=k, rounds=1, procs=procs, seed=rng.randrange(1 << 30), jobs=firsts, share=0))
     # one fresh process per run: shared state that only races while it is cold must meet the goroutines before anything warmed it up
     obs, first = [], ""
     for inp in inputs:
         logdir = ctx.dir("race")
-        o = vlib.drive(ctx, "c18", [inp], race=True, timeout=3000, env={"GORACE": "log_path=%s/race halt_on_error=0 exitcode=0" % logdir})[0]
+        o = vlib.drive(ctx, "c18", [inp], race=True, timeout=3000, env={"GORACE": "log_path=%s/race halt_on_error=0 exitcode=0 history_size=7" % logdir})[0]
         reports = 0
         for f in glob.glob(os.path.join(logdir, "race*")):
             s = open(f, errors="replace").read()
@@ -136,7 +142,7 @@ def run(ctx, inputs=None, label="concurrent run"):
         obs.append(o)
     bad = vlib.validate(ctx, "Trace_Conc", obs, shards=1)
     ctx.traces += len(obs)
-    names = ["no panic", "every cache / scratch object touched by one goroutine", "no write to package-level state",
+    names = ["no panic, every round comes back", "every cache / scratch object touched by one goroutine", "no write to package-level state",
              "results equal the sequential ones", "no race detector report", "hooks observed the encoders"]
     for o in obs:
         for r in o["res"]:
